@@ -40,15 +40,15 @@ struct Ctx {
     sum: Summary,
     shards: CoqShards,
     /// Coq evaluation budget per case kind (queue, submit, map, reduce, collector)
-    budget: [usize; 6],
-    used: [usize; 6],
+    budget: [usize; 7],
+    used: [usize; 7],
     rng: Rng,
     thorough: bool,
 }
 
 impl Ctx {
     fn coq(&mut self, kind: u32, a: u64, b: u64, ops: &[i64], obs: &[i64], case: &Value, force: bool) {
-        let k = (kind as usize).min(5);
+        let k = (kind as usize).min(6);
         if !force && self.used[k] >= self.budget[k] { return; }
         self.used[k] += 1;
         let term = format!(
@@ -218,7 +218,7 @@ fn queue_case(cx: &mut Ctx, cap: usize, variant: u64, ops: &[i64], force: bool) 
 // cell: the running executor (S-only) + submit history (M+S when deterministic)
 // ---------------------------------------------------------------------------------------------
 
-const STALL_MS: u64 = 1200;
+const STALL_MS: u64 = 2000;
 
 struct ExecOutcome {
     accept: Vec<bool>,
@@ -321,6 +321,89 @@ fn exec_case(cx: &mut Ctx, nw: usize, cap: usize, rt: usize, mode: u64, codes: &
                 cx.sum.fail(&cell, None, case, &format!("stats().total_executed = {} after {} accepted tasks ran", o.total_executed, accepted));
             }
         }
+    }
+}
+
+// ---------------------------------------------------------------------------------------------
+// cell: executor histories through the verification hook (M+S): the real submit / find_task / balance
+// of a paused executor in an interleaving chosen by the harness
+// ---------------------------------------------------------------------------------------------
+
+/// If the repository under test does not carry the `hook:` commit these defaults are picked up
+/// (inherent methods win over trait methods), and the cell reports itself as skipped.
+trait HookFallback {
+    fn verif_new_paused(_nw: usize, _cap: usize) -> ZResult<Arc<WorkStealingExecutor>> { Err(ZiporaError::configuration("hook missing")) }
+    fn verif_find_task(&self, _w: usize) -> Option<Box<dyn Task>> { None }
+    fn verif_balance(&self, _w: usize) {}
+}
+impl HookFallback for WorkStealingExecutor {}
+
+/// ops: task code = submit, 10+w = find_task of worker w, 30+w = balance of worker w, 5 = total_queued
+fn hist_case(cx: &mut Ctx, nw: usize, cap: usize, ops: &[i64], force: bool) {
+    let cell = "WorkStealingExecutor/history (hook)";
+    let case = json!({"cell": "hist", "kind": 6, "nw": nw, "cap": cap, "ops": ops});
+    let nsub = ops.iter().filter(|&&o| o >= 1000).count();
+    let r = guarded(|| {
+        let ex = match WorkStealingExecutor::verif_new_paused(nw, cap) { Ok(e) => e, Err(_) => return None };
+        let counters: Arc<Vec<AtomicU32>> = Arc::new((0..nsub + 1).map(|_| AtomicU32::new(0)).collect());
+        let mut obs: Vec<i64> = vec![];
+        let mut accepted = vec![false; nsub];
+        let mut out = vec![0u32; nsub];
+        let mut problems: Vec<String> = vec![];
+        let mut next = 0usize;
+        let took = |t: Option<Box<dyn Task>>, out: &mut Vec<u32>, problems: &mut Vec<String>| -> i64 {
+            match t { None => -1, Some(t) => { let id = task_id(&t); if id >= 0 && (id as usize) < out.len() { out[id as usize] += 1; } else { problems.push(format!("unknown task {}", id)); } id } }
+        };
+        for &o in ops {
+            if o >= 1000 {
+                let ok = ex.submit(mk_task(next, o, &counters)).is_ok();
+                accepted[next] = ok;
+                obs.push(if ok { 1 } else { 0 });
+                next += 1;
+            } else if o >= 30 { ex.verif_balance(((o - 30) as usize).min(nw - 1)); }
+            else if o >= 10 { let t = ex.verif_find_task(((o - 10) as usize).min(nw - 1)); obs.push(took(t, &mut out, &mut problems)); }
+            else { obs.push(ex.total_queued() as i64); }
+        }
+        obs.push(-7);
+        // every worker keeps asking for work until a whole pass finds nothing
+        for _ in 0..(nsub + 2) {
+            let mut any = false;
+            for w in 0..nw { let t = ex.verif_find_task(w); let v = took(t, &mut out, &mut problems); if v >= 0 { obs.push(v); any = true; } }
+            if !any { break; }
+        }
+        obs.push(-7);
+        let left = ex.total_queued();
+        obs.push(left as i64);
+        for i in 0..nsub {
+            if accepted[i] && out[i] == 0 { problems.push(format!("task {} was accepted but no worker's find_task ever returns it (total_queued = {}, is_idle = {})", i, left, ex.is_idle())); break; }
+            if out[i] > 1 { problems.push(format!("task {} was handed out {} times", i, out[i])); break; }
+            if !accepted[i] && out[i] > 0 { problems.push(format!("task {} was rejected by submit but handed out", i)); break; }
+        }
+        if problems.is_empty() && (left != 0 || !ex.is_idle()) { problems.push(format!("all tasks handed out but total_queued = {} / is_idle = {}", left, ex.is_idle())); }
+        Some((obs, problems))
+    });
+    match r {
+        Err(p) => { cx.sum.eval(cell, &format!("h {} {} {:?}", nw, cap, ops), true); cx.sum.fail(cell, None, case, &format!("panicked: {}", p)) }
+        Ok(None) => { cx.sum.dist("hook_missing_history_cell_skipped"); }
+        Ok(Some((obs, problems))) => {
+            cx.sum.eval(cell, &format!("h {} {} {:?}", nw, cap, ops), nsub >= 2 && ops.iter().any(|&o| (10..1000).contains(&o)));
+            let stripped: Vec<i64> = ops.iter().map(|&o| if o >= 1000 { o % 10000 } else { o }).collect();
+            cx.coq(6, nw as u64, cap as u64, &stripped, &obs, &case, force);
+            if let Some(p) = problems.first() { cx.sum.fail(cell, None, case, p); }
+        }
+    }
+}
+
+fn enumerate_hist(cx: &mut Ctx, len: usize, alphabet: &[i64], nw: usize, cap: usize, stride: usize) {
+    let k = alphabet.len();
+    let total = k.pow(len as u32);
+    let mut idx = 0usize;
+    while idx < total {
+        let mut ops = Vec::with_capacity(len);
+        let mut x = idx;
+        for _ in 0..len { ops.push(alphabet[x % k]); x /= k; }
+        if ops[0] >= 1000 { hist_case(cx, nw, cap, &ops, false); }
+        idx += stride;
     }
 }
 
@@ -816,6 +899,11 @@ fn run_one(cx: &mut Ctx, c: &Value) {
             let ops: Vec<i64> = ops.into_iter().filter(|&o| is_task_code(o)).collect();
             exec_case(cx, u(&c["nw"], 1).max(1) as usize, u(&c["cap"], 8) as usize, u(&c["rt"], 0) as usize, u(&c["mode"], 0), &ops, true)
         }
+        "hist" => {
+            let nw = u(&c["nw"], 1).max(1) as usize;
+            let ops: Vec<i64> = ops.into_iter().filter(|&o| is_task_code(o) || o == 5 || (10..10 + nw as i64).contains(&o) || (30..30 + nw as i64).contains(&o)).collect();
+            hist_case(cx, nw, u(&c["cap"], 2) as usize, &ops, true)
+        }
         "order" => {
             let ops: Vec<i64> = ops.into_iter().filter(|&o| is_task_code(o)).collect();
             order_case(cx, u(&c["cap"], 8) as usize, &ops, true)
@@ -858,14 +946,14 @@ pub fn run(args: &Args) {
     let mut cx = Ctx {
         sum: Summary::new("C18", "corpus; all WorkStealingQueue histories of <= 6 operations over push(prio 0/1, stealable or not)/pop_local/steal/balance + random histories around the capacity; the running executor with 1, 2, 3, 4 workers on current-thread and multi-thread runtimes, task counts around workers*capacity, around the global overflow and around the balance trigger (100 executed), mixed priorities/stealability/task behaviour, workers idle or not when the tasks arrive; parallel_map/for_each/reduce, process_batch, execute_stream, BatchCollector and the yield/aio helpers on vectors of length 0..40 with and without failing, panicking and timed-out items, concurrency limits around the input length. A case is non-trivial when it has >= 2 tasks/items (queue histories: >= 2 pushes and a steal or balance); distinct = distinct canonical case text"),
         shards: CoqShards::new(&header(), 300),
-        budget: if args.thorough { [6000, 600, 1500, 1500, 1500, 600] } else { [650, 70, 200, 160, 160, 60] },
-        used: [0; 6],
+        budget: if args.thorough { [5000, 600, 1200, 1200, 1200, 600, 4000] } else { [420, 60, 160, 130, 130, 60, 420] },
+        used: [0; 7],
         rng: Rng::new(args.seed),
         thorough: args.thorough,
     };
     for c in ["WorkStealingQueue", "WorkStealingExecutor::submit", "FiberPool::parallel_map", "concurrency::parallel_map", "concurrency::join_all",
               "FiberPool::spawn_batch", "FiberPool::parallel_reduce", "Pipeline::process_batch", "BatchCollector",
-              "WorkStealingExecutor/worker_loop order (1 worker)"] {
+              "WorkStealingExecutor/worker_loop order (1 worker)", "WorkStealingExecutor/history (hook)"] {
         cx.sum.cell_status(c, "M+S");
     }
     cx.sum.cell_status("concurrency::parallel_reduce", "S-only");
@@ -974,6 +1062,36 @@ pub fn run(args: &Args) {
             cx.rng = r;
             if k < 2 { cx.sum.sample(json!({"cell": "executor", "nw": nw, "cap": cap, "rt": rt, "mode": mode, "ops": codes})); }
             exec_case(&mut cx, nw, cap, rt, mode, &codes, false);
+        }
+    }
+
+    // 3f. executor histories through the hook: every interleaving of submit / find_task / balance of small shape
+    {
+        // submit(p0 stealable), submit(p1 stealable), submit(p0 pinned), find 0, find 1, balance 0, balance 1
+        let alpha2 = [1001i64, 1003, 1000, 10, 11, 30, 31];
+        for len in 1..=3 { enumerate_hist(&mut cx, len, &alpha2, 2, 2, 1); }
+        enumerate_hist(&mut cx, 4, &alpha2, 2, 2, if thorough { 1 } else { 3 });
+        enumerate_hist(&mut cx, 5, &alpha2, 2, 3, if thorough { 1 } else { 23 });
+        enumerate_hist(&mut cx, 6, &alpha2, 2, 3, if thorough { 5 } else { 211 });
+        // one worker: submit x3, find, balance
+        let alpha1 = [1001i64, 1003, 1000, 10, 30];
+        for len in 1..=5 { enumerate_hist(&mut cx, len, &alpha1, 1, 4, 1); }
+        enumerate_hist(&mut cx, 7, &alpha1, 1, 8, if thorough { 1 } else { 97 });
+        let nrand = if thorough { 30000 } else { 1200 };
+        for k in 0..nrand {
+            let mut r = cx.rng.clone();
+            let nw = *r.pick(&[1usize, 1, 2, 2, 3, 4]);
+            let cap = *r.pick(&[0usize, 1, 2, 3, 4, 8, 16]);
+            let len = r.range(1, if k % 8 == 0 { 80 } else { 30 }) as usize;
+            let prio_mix = r.below(4);
+            let sub_bias = r.range(3, 8);
+            let ops: Vec<i64> = (0..len).map(|_| {
+                if r.below(10) < sub_bias { rand_code(&mut r, prio_mix, false) }
+                else { match r.below(7) { 0..=3 => 10 + r.below(nw as u64) as i64, 4 | 5 => 30 + r.below(nw as u64) as i64, _ => 5 } }
+            }).collect();
+            cx.rng = r;
+            if k < 2 { cx.sum.sample(json!({"cell": "hist", "nw": nw, "cap": cap, "ops": ops})); }
+            hist_case(&mut cx, nw, cap, &ops, false);
         }
     }
 
